@@ -9,6 +9,7 @@ import FurikoModel.Driver.JcStatusD
 import FurikoModel.Driver.TaskfnD
 import FurikoModel.Driver.JobCtlD
 import FurikoModel.Driver.MutationD
+import FurikoModel.Driver.ValidationD
 open Furiko Furiko.Driver
 
 structure DState where
@@ -21,6 +22,7 @@ structure DState where
   jcstatus : JcDS := {}
   taskfn : TaskfnDS := {}
   jobctl : Furiko.JobCtl.Sys := {}
+  val : ValDS := {}
 
 def step (s : DState) (line : String) : DState × String :=
   let t := toks line
@@ -44,6 +46,9 @@ def step (s : DState) (line : String) : DState × String :=
       ({ s with config := c }, o)
     else if op.startsWith "opt." then (s, optionsStep t)
     else if op.startsWith "adm." then (s, mutationStep t)
+    else if op.startsWith "val." then
+      let (c, o) := validationStep s.val t
+      ({ s with val := c }, o)
     else if op.startsWith "idx." then
       let (c, o) := idxStep s.idx t
       ({ s with idx := c }, o)
